@@ -11,11 +11,19 @@ LEVEL_TEXT = ("Proof + correspondence: Coq functions give, for any glyph list / 
               "coordinates, sorted, each otRound-ed) and the set of cursive records (entry/exit pairs incl. suffixed ones, rounded, "
               "with the right-to-left flag); theorems: the class map is sound and complete w.r.t. the categories of exported "
               "glyphs, carets come out in increasing order and each is a rounded source coordinate, the RTL flag is decided by an "
-              "explicit .LTR/.RTL suffix and otherwise cleared exactly for glyphs of left-to-right scripts. These functions are "
+              "explicit .LTR/.RTL suffix and otherwise cleared exactly for glyphs of left-to-right scripts. WHICH glyphs those are "
+              "is util.classifyGlyphs, modelled in Mark/Direction.v: under the hypothesis that the subsetter's GSUB closure is "
+              "reachability over single substitutions, the classified set is exactly the set reachable from the cmap's "
+              "left-to-right glyphs through GSUB and designspace-rule substitutions (C18_classification_is_reachability, sound "
+              "also with neutral glyphs), the two cursive lookups partition the anchored glyphs accordingly; the pre-repair "
+              "single pass is refuted (F24). The Gallina classify is compared with classifyGlyphs on random substitution graphs "
+              "(feaLib-compiled GSUB, fontTools closure), and compiled static / interpolatable / variable fonts with GSUB and "
+              "rule substitutions are judged against an independently computed closure. These functions are "
               "evaluated with vm_compute and compared with GDEF.GlyphClassDef / LigCaretList and the CursivePos lookups read from "
               "compiled fonts; a user-written GDEF block must survive untouched.")
-LEVEL_NOTE = ("Trusted: Coq kernel, hand model, harness, GPOS/GDEF reader, feaLib. The set of left-to-right glyphs is taken from the "
-              "real classifyGlyphs(unicodeScriptDirection, ...). 'entry/exit anchors' = names whose counterpart occurs somewhere in "
+LEVEL_NOTE = ("Trusted: Coq kernel, hand model, harness, GPOS/GDEF reader, feaLib. The set of left-to-right glyphs of the fonts without substitutions is computed "
+              "from fontTools.unicodedata alone; the GSUB closure of the fontTools subsetter is environment (a hypothesis of the "
+              "closure theorems). 'entry/exit anchors' = names whose counterpart occurs somewhere in "
               "the font; coordinates are read from the source font (DESIGN C18).")
 TECHNIQUE = "Coq functions + theorems for GDEF classes / carets / cursive records, vm_compute comparison with the compiled GDEF and GPOS"
 IMPORTS = "From U2F Require Import Base.Prelude Geometry.Model Kern.Model Mark.Model Mark.Gdef."
@@ -82,6 +90,73 @@ def gen(rng):
     return {"glyphs": glyphs, "lib": ({"public.openTypeCategories": cats} if cats else {}), "features": fea, "user_gdef": user_gdef}
 
 
+def is_ltr(u):
+    from fontTools import unicodedata as ud
+    sc = ud.script(chr(u))
+    return sc not in ("Zyyy", "Zinh") and ud.script_horizontal_direction(sc, "LTR") == "LTR"
+
+
+def classify_model_section(ctx):
+    """util.classifyGlyphs against Mark/Direction.v on random substitution graphs: a cmap of LTR / RTL / neutral characters,
+    GSUB single substitutions (compiled by feaLib, closed by the fontTools subsetter) and designspace-rule substitutions"""
+    from fontTools.ttLib import TTFont
+    from fontTools.feaLib.builder import addOpenTypeFeaturesFromString
+    from ufo2ft.util import classifyGlyphs, unicodeScriptDirection
+    rng = ctx.subrng("classify-model")
+    CH = {"L": [0x61, 0x62, 0x63, 0x3B1], "R": [0x627, 0x628, 0x5D0], "N": [0x2E, 0x2C, 0x30]}
+    cases, meta = [], []
+    for i in range(ctx.budget(60, 400)):
+        n = rng.randint(3, 9)
+        names = ["g%d" % k for k in range(n)]
+        kinds = {}
+        cmap = {}
+        pool = {k: list(v) for k, v in CH.items()}
+        for nm in names:
+            k = rng.choice(["L", "R", "N", None, None])
+            if k and pool[k]:
+                cmap[pool[k].pop()] = nm
+                kinds[nm] = k
+        gsub_edges = sorted({(rng.choice(names), rng.choice(names)) for _ in range(rng.randint(0, 6))})
+        gsub_edges = [(a, b) for a, b in gsub_edges if a != b]
+        extra_edges = sorted({(rng.choice(names), rng.choice(names)) for _ in range(rng.randint(0, 4))})
+        has_gsub = bool(gsub_edges) and i % 5 != 4
+        gsub = None
+        if has_gsub:
+            tt = TTFont(); tt.setGlyphOrder([".notdef"] + names)
+            fea = "".join("feature ss%02d {\n    sub %s by %s;\n} ss%02d;\n" % (k + 1, a, b, k + 1) for k, (a, b) in enumerate(gsub_edges))
+            addOpenTypeFeaturesFromString(tt, fea)
+            gsub = tt["GSUB"]
+        extras = {}
+        for a, b in extra_edges:
+            extras.setdefault(a, set()).add(b)
+        case = {"cmap": {hex(u): g for u, g in cmap.items()}, "gsub_single_substitutions": gsub_edges if has_gsub else None,
+                "extra_substitutions": extra_edges}
+        try:
+            got = classifyGlyphs(unicodeScriptDirection, cmap, gsub, extras or None)
+        except Exception as e:
+            ctx.spec_failure(case, "classifyGlyphs raised %s: %s" % (type(e).__name__, e))
+            continue
+        ctx.count(); ctx.klass("classify: gsub=%s extras=%s" % (has_gsub, bool(extra_edges)))
+        if extra_edges and has_gsub:
+            ctx.nontriv(("cl", i, ctx.scale))
+        gl = lambda xs: G.lst([G.s(x) for x in xs], "str")
+        ge = lambda es: G.lst([G.tup(G.s(a), G.s(b)) for a, b in es], "(str * str)")
+        for key, kk in (("LTR", "L"), ("RTL", "R")):
+            init = [nm for nm in names if kinds.get(nm) == kk]
+            if not init and key not in got:
+                continue
+            cases.append(G.tup(ge(gsub_edges if has_gsub else []), ge(extra_edges), G.b(has_gsub), gl(init),
+                               gl([nm for nm in names if kinds.get(nm) == "N"]), gl(sorted(got.get(key, set())))))
+            meta.append(dict(case, key=key, implementation=sorted(got.get(key, set()))))
+    vals = ctx.coq_eval("From U2F Require Import Base.Prelude Mark.Direction.",
+                        "fun c : (list (str * str) * list (str * str) * bool * list str * list str * list str) => "
+                        "let '(g, x, b, l, n, got) := c in if same_set (classify (closure g) x b l n) got then 3 else 2",
+                        cases, chunk=100, tag="Classify")
+    for v, case in zip(vals, meta):
+        if v is not None and v != 3:
+            ctx.corr_mismatch(case, "Gallina classify (Mark/Direction.v) differs from util.classifyGlyphs")
+
+
 def direction_closure_section(ctx):
     """'glyphs of left-to-right scripts' includes the unencoded glyphs that LTR characters turn into: through GSUB rules of the
     feature file and through designspace <rule> substitutions (handed to the writers as extra substitutions). Independent
@@ -93,8 +168,10 @@ def direction_closure_section(ctx):
     from harness import dsgen
     rng = ctx.subrng("direction-closure")
     GL = [("n", 0x6E), ("o", 0x6F), ("n.alt", None), ("n.sc", None), ("behDotless-ar", 0x66E), ("behDotless-ar.fina", None),
-          ("behDotless-ar.alt", None), ("orphan", None)]
-    GSUB = "feature smcp {\n    sub n by n.sc;\n} smcp;\nfeature fina {\n    sub behDotless-ar by behDotless-ar.fina;\n} fina;\n"
+          ("behDotless-ar.alt", None), ("orphan", None), ("n.alt.sc", None), ("n.alt2", None)]
+    # (n.alt.sc is reached from n only through a designspace rule FOLLOWED by a GSUB rule, n.alt2 through two rules)
+    GSUB = ("feature smcp {\n    sub n by n.sc;\n    sub n.alt by n.alt.sc;\n} smcp;\n"
+            "feature fina {\n    sub behDotless-ar by behDotless-ar.fina;\n} fina;\n")
     for i in range(ctx.budget(12, 48)):
         lib = ["ufoLib2", "defcon"][i % 2]
         with_gsub = i % 2 == 0 or i % 6 == 5
@@ -105,9 +182,16 @@ def direction_closure_section(ctx):
                   for n, u in GL]
         desc = {"glyphs": glyphs, "features": "languagesystem DFLT dflt;\n" + (GSUB if with_gsub else ""), "glyphOrder": [n for n, _ in GL]}
         rules = mode != "static"
-        ltr = {"n", "o"} | ({"n.sc"} if with_gsub else set()) | ({"n.alt"} if rules else set())
+        # closure of the cmap's left-to-right glyphs under the GSUB rules above and the designspace rules below
+        edges = ([("n", "n.sc"), ("n.alt", "n.alt.sc")] if with_gsub else []) + ([("n", "n.alt"), ("n.alt", "n.alt2")] if rules else [])
+        ltr = {"n", "o"}
+        while True:
+            more = {b for a, b in edges if a in ltr} - ltr
+            if not more:
+                break
+            ltr |= more
         case = {"font": jsonable(desc), "lib": lib, "mode": mode, "gsub_features": with_gsub,
-                "designspace_rules": [["n", "n.alt"], ["behDotless-ar", "behDotless-ar.alt"]] if rules else [],
+                "designspace_rules": [["n", "n.alt"], ["behDotless-ar", "behDotless-ar.alt"], ["n.alt", "n.alt2"]] if rules else [],
                 "expected_ltr_glyphs": sorted(ltr)}
         ctx.count(); ctx.klass("direction closure: %s/%s" % (mode, "gsub" if with_gsub else "no-gsub")); ctx.nontriv(("dc", i, ctx.scale))
         try:
@@ -120,6 +204,11 @@ def direction_closure_section(ctx):
                 r.conditionSets = [[{"name": ds.axes[0].name, "minimum": 500, "maximum": ds.axes[0].maximum}]]
                 r.subs = [("n", "n.alt"), ("behDotless-ar", "behDotless-ar.alt")]
                 ds.rules.append(r)
+                r = RuleDescriptor(); r.name = "alt2"
+                r.conditionSets = [[{"name": ds.axes[0].name, "minimum": 700, "maximum": ds.axes[0].maximum}]]
+                r.subs = [("n.alt", "n.alt2")]
+                ds.rules.append(r)
+                ds.rulesProcessingLast = i % 4 == 1         # rvrn (rules first: a rule's substitute meets the GSUB rules) or rclt
                 if mode == "interpolatable-ttf-from-ds":
                     tts = [sd.font for sd in ufo2ft.compileInterpolatableTTFsFromDS(ds, useProductionNames=False).sources]
                 elif mode == "interpolatable-otf-from-ds":
@@ -149,6 +238,7 @@ def direction_closure_section(ctx):
 
 def explore(ctx):
     direction_closure_section(ctx)
+    classify_model_section(ctx)
     import ufo2ft
     from fontTools.ttLib import TTFont
     from ufo2ft.util import classifyGlyphs, unicodeScriptDirection
@@ -167,7 +257,7 @@ def explore(ctx):
         lay = Layout(tt)
         names = [g["name"] for g in desc["glyphs"]]
         cmap = {g["unicodes"][0]: g["name"] for g in desc["glyphs"] if g["unicodes"]}
-        ltr = sorted(classifyGlyphs(unicodeScriptDirection, cmap).get("LTR", set()))
+        ltr = sorted(n for u, n in cmap.items() if is_ltr(u))      # stated with fontTools.unicodedata only, not with ufo2ft.util
         obs_classes = {g: c for g, c in lay.glyph_classes().items() if g in names}
         obs_carets = {g: [c for _, c in v] for g, v in lay.lig_carets().items()}
         obs_curs = []
